@@ -5,7 +5,7 @@ under test except `make_curve_object`."""
 
 
 def inv(x, p):
-    return pow(x % p, p - 2, p)
+    return pow(x % p, -1, p)
 
 
 def on_curve(cv, P):
